@@ -3169,8 +3169,55 @@ fn sweep_c08(seed: u64, thorough: bool) -> Sweep {
     });
     for p in parts { s.merge(p); }
     s.count("seeded six/seven-card hands x 3 shifts", n_seeded);
+    if thorough {
+        // EVERY six- and seven-card hand against its shifted copy, through the unvalidated and the validated entry point.
+        // Shifting permutes the set of hands, so value(h) == value(shift h) for all h gives invariance under all three
+        // shifts by transitivity.  Slot order: deck order or sorted descending by card word, per hand.
+        let six: Vec<Sweep> = par_ranges(47, 47, |lo, hi| {
+            let mut p = Sweep::default();
+            for a in lo as usize..hi as usize {
+                for b in a + 1..52 { for c in b + 1..52 { for d in c + 1..52 { for e in d + 1..52 { for f in e + 1..52 {
+                    let mut w = [deck[a], deck[b], deck[c], deck[d], deck[e], deck[f]];
+                    if (a + b + f) % 2 == 1 { w.sort_unstable_by(|x, y| y.cmp(x)); }
+                    let h = Six::from(w);
+                    let x = h.shift_suit();
+                    p.evaluations += 2;
+                    let r = guarded(|| (h.hand_rank_value(), x.hand_rank_value(), h.hand_rank_value_validated(), x.hand_rank_value_validated()));
+                    match r {
+                        Some((v, v1, vv, vv1)) if v == v1 && vv == vv1 && v == vv => {}
+                        other => p.fail("six-card value changes under a shift (unvalidated / validated entry point)", &join(h.to_arr()), "equal values", &format!("{other:?}")),
+                    }
+                } } } } }
+            }
+            p
+        });
+        for p in six { s.merge(p); }
+        s.count("every six-card hand vs its shifted copy, two entry points", 20_358_520);
+        let seven: Vec<Sweep> = par_ranges(46 * 52, 46 * 52, |lo, hi| {
+            let mut p = Sweep::default();
+            for ab in lo as usize..hi as usize {
+                let (a, b) = (ab / 52, ab % 52);
+                if b <= a { continue; }
+                for c in b + 1..52 { for d in c + 1..52 { for e in d + 1..52 { for f in e + 1..52 { for g in f + 1..52 {
+                    let mut w = [deck[a], deck[b], deck[c], deck[d], deck[e], deck[f], deck[g]];
+                    if (a + c + g) % 2 == 1 { w.sort_unstable_by(|x, y| y.cmp(x)); }
+                    let h = Seven::from(w);
+                    let x = h.shift_suit();
+                    p.evaluations += 2;
+                    let r = guarded(|| (h.hand_rank_value(), x.hand_rank_value(), h.hand_rank_value_validated(), x.hand_rank_value_validated()));
+                    match r {
+                        Some((v, v1, vv, vv1)) if v == v1 && vv == vv1 && v == vv => {}
+                        other => p.fail("seven-card value changes under a shift (unvalidated / validated entry point)", &join(h.to_arr()), "equal values", &format!("{other:?}")),
+                    }
+                } } } } }
+            }
+            p
+        });
+        for p in seven { s.merge(p); }
+        s.count("every seven-card hand vs its shifted copy, two entry points", 133_784_560);
+    }
     s.nontrivial = s.evaluations;
-    s.rule = "52 cards + blank: the cycle and four-shift identity; sizes 2..7: container shift against slot-wise shift; every five-card hand under the three non-trivial shifts (all 24 suit relabellings in thorough); seeded six/seven-card hands under the three shifts".into();
+    s.rule = "52 cards + blank: the cycle and four-shift identity; sizes 2..7: container shift against slot-wise shift; every five-card hand under the three non-trivial shifts (all 24 suit relabellings in thorough); seeded six/seven-card hands under the three shifts; thorough: EVERY six- and seven-card hand against its shifted copy through hand_rank_value and hand_rank_value_validated".into();
     s.sample(format!("AS.shift_suit() = {}", deck[0].shift_suit()));
     s
 }
